@@ -12,7 +12,7 @@ RULE = c10.RULE + (" C11 oracle: after every simulator step in which all runnabl
 REAL = REAL_IP
 STUB = STUB_IP
 ASSUMPTIONS = c10.ASSUMPTIONS + ["a connection counts as closed by the controller from the moment it calls transport.close()/socket.close() (send-buffer drain time is not held against it)"]
-TIERS = {"quick": {"runs": 5000, "wall": 60}, "thorough": {"runs": 300000, "wall": 1500}}
+TIERS = {"quick": {"runs": 20000, "wall": 60}, "thorough": {"runs": 300000, "wall": 1500}}
 
 
 def gen_plan(seed: int, tier: str) -> dict:
